@@ -92,6 +92,14 @@ def step (line : String) : String :=
         | none => s!"ok pages={((f.rowGroups.flatMap fun rg => rg.chunks.map fun sc => sc.pages.length).sum)}"
         | some msg => "unsound " ++ msg.replace " " "_"
     | _, _ => "bad-op"
+  | ["entries", cols, mx, file, tab] =>
+    match parseCols cols, mx.toNat? with
+    | some cols, some mx => showFileEntries (parseFile (parseDecomp tab) cols mx (unhex file))
+    | _, _ => "bad-op"
+  | ["stripes", cols, recs] =>
+    match parseCols cols with
+    | some cols => (showStripes cols recs).getD "bad-op"
+    | none => "bad-op"
   | ["pack", w, g] =>
     match w.toNat? with
     | some w => toHex (pack w (unhex g))
